@@ -390,4 +390,214 @@ theorem rel_plainStep1 (T : Tables) (hC : contOK T = true) {pre : List Obj} {off
     | raise => exact rel_fail _ h
     | bad => exact rel_fail _ h
 
+theorem rel_tokStep1 (T : Tables) (hC : contOK T = true) (cfg : Cfg) {pre : List Obj} {off : Nat} {s s' : S1}
+    (t : TMode) (b : Byte) (h : Rel pre off s s') (hm : s'.mode = .tok t) :
+    Rel pre off (tokStep1 T cfg s t b) (tokStep1 T cfg s' t b) := by
+  have htok : s.tok = s'.tok := h.tok (by rw [hm]; trivial)
+  unfold tokStep1
+  cases hl : lookup? T (.tok t) b with
+  | none => exact rel_fail _ h
+  | some a =>
+    simp only []
+    by_cases h1 : a = .skipByte
+    · simp only [h1, if_true]
+      refine ⟨h.core, h.mode, h.pos, fun _ => by simp [htok], h.sbuf, h.base, h.sharp, h.rune⟩
+    · simp only [h1, if_false]
+      by_cases h2 : a = doneOf t
+      · simp only [h2, if_true]
+        have hcr : CR pre (consume T cfg t s.core s.tok) (consume T cfg t s'.core s'.tok) := by
+          rw [htok]
+          exact cr_consume T cfg t _ h.core (fun ht => h.base (by rw [hm, ht]))
+        have h0 : Rel pre off
+            { s with core := consume T cfg t s.core s.tok, mode := .plain .value, tok := [] }
+            { s' with core := consume T cfg t s'.core s'.tok, mode := .plain .value, tok := [] } := by
+          refine ⟨hcr, rfl, h.pos, ?_, ?_, ?_, ?_, ?_⟩
+          · intro ht; cases ht
+          · intro ht; cases ht
+          · intro ht; cases ht
+          · intro ht; cases ht
+          · intro ht; cases ht
+        rw [show (consume T cfg t s.core s.tok).halt = (consume T cfg t s'.core s'.tok).halt from hcr.halt]
+        split
+        · exact h0
+        · exact rel_plainStep1 T hC .value b h0 (fun hp => by cases hp)
+      · simp only [h2, if_false]
+        split <;> exact rel_fail _ h
+
+theorem rel_strStep1 (T : Tables) {pre : List Obj} {off : Nat} {s s' : S1}
+    (m : SMode) (b : Byte) (h : Rel pre off s s') (hm : s'.mode = .str m) :
+    Rel pre off (strStep1 T s m b) (strStep1 T s' m b) := by
+  have hsb := h.sbuf (by rw [hm]; trivial)
+  unfold strStep1
+  cases hl : lookup? T (.str m) b with
+  | none => exact rel_fail _ h
+  | some a =>
+    simp only []
+    cases a <;> simp only []
+    all_goals first
+      | exact rel_fail _ h
+      | skip
+    · -- stringByte
+      refine ⟨h.core, h.mode, h.pos, h.tok, fun ht => ⟨by rw [hsb.1], (h.sbuf ht).2⟩, h.base, h.sharp, h.rune⟩
+    · -- stringDone
+      rw [hsb.1]
+      refine ⟨cr_push _ h.core, rfl, h.pos, ?_, ?_, ?_, ?_, ?_⟩
+      · intro ht; cases ht
+      · intro ht; cases ht
+      · intro ht; cases ht
+      · intro ht; cases ht
+      · intro ht; cases ht
+    · -- pipeDone
+      rw [hsb.1]
+      refine ⟨cr_push _ h.core, rfl, h.pos, ?_, ?_, ?_, ?_, ?_⟩
+      · intro ht; cases ht
+      · intro ht; cases ht
+      · intro ht; cases ht
+      · intro ht; cases ht
+      · intro ht; cases ht
+    · -- escByte
+      refine ⟨h.core, rfl, h.pos, ?_, fun _ => hsb, ?_, ?_, ?_⟩
+      · intro ht; cases ht
+      · intro ht; cases ht
+      · intro ht; cases ht
+      · intro ht; cases ht
+
+theorem rel_escStep1 (T : Tables) {pre : List Obj} {off : Nat} {s s' : S1}
+    (b : Byte) (h : Rel pre off s s') (hm : s'.mode = .esc) :
+    Rel pre off (escStep1 T s b) (escStep1 T s' b) := by
+  have hsb := h.sbuf (by rw [hm]; trivial)
+  unfold escStep1
+  cases hl : lookup? T .esc b with
+  | none => exact rel_fail _ h
+  | some a =>
+    simp only []
+    cases a <;> simp only []
+    all_goals first
+      | exact rel_fail _ h
+      | skip
+    · -- escOne
+      rw [hsb.1, hsb.2]
+      refine ⟨h.core, rfl, h.pos, ?_, fun _ => ⟨rfl, hsb.2⟩, ?_, ?_, ?_⟩
+      · intro ht; cases ht
+      · intro ht; cases ht
+      · intro ht; cases ht
+      · intro ht; cases ht
+    · -- escUnicode4
+      refine ⟨⟨h.core.stack, h.core.starts, h.core.halt, h.core.code⟩, rfl, h.pos, ?_, fun _ => hsb, ?_, ?_, fun _ => ⟨rfl, rfl⟩⟩
+      · intro ht; cases ht
+      · intro ht; cases ht
+      · intro ht; cases ht
+    · -- escUnicode8
+      refine ⟨⟨h.core.stack, h.core.starts, h.core.halt, h.core.code⟩, rfl, h.pos, ?_, fun _ => hsb, ?_, ?_, fun _ => ⟨rfl, rfl⟩⟩
+      · intro ht; cases ht
+      · intro ht; cases ht
+      · intro ht; cases ht
+
+theorem rel_runeStep1 (T : Tables) {pre : List Obj} {off : Nat} {s s' : S1}
+    (b : Byte) (h : Rel pre off s s') (hm : s'.mode = .rune) :
+    Rel pre off (runeStep1 T s b) (runeStep1 T s' b) := by
+  have hsb := h.sbuf (by rw [hm]; trivial)
+  have hrn := h.rune hm
+  unfold runeStep1
+  cases hl : lookup? T .rune b with
+  | none => exact rel_fail _ h
+  | some a =>
+    simp only []
+    cases hv : runeVal a b with
+    | none =>
+      simp only []
+      split <;> exact rel_fail _ h
+    | some v =>
+      simp only []
+      rw [hrn.1, hrn.2, hsb.1, hsb.2]
+      split
+      · refine ⟨⟨h.core.stack, h.core.starts, h.core.halt, h.core.code⟩, rfl, h.pos, ?_, fun _ => ⟨rfl, rfl⟩, ?_, ?_, ?_⟩
+        · intro ht; cases ht
+        · intro ht; cases ht
+        · intro ht; cases ht
+        · intro ht; cases ht
+      · refine ⟨⟨h.core.stack, h.core.starts, h.core.halt, h.core.code⟩, h.mode, h.pos, h.tok, fun _ => ⟨rfl, rfl⟩, ?_, ?_, fun _ => ⟨rfl, rfl⟩⟩
+        · intro ht; rw [hm] at ht; cases ht
+        · intro ht; rw [hm] at ht; cases ht
+
+theorem rel_chrStartStep1 (T : Tables) {pre : List Obj} {off : Nat} {s s' : S1}
+    (b : Byte) (h : Rel pre off s s') :
+    Rel pre off (chrStartStep1 T s b) (chrStartStep1 T s' b) := by
+  unfold chrStartStep1
+  cases hl : lookup? T .chrStart b with
+  | none => exact rel_fail _ h
+  | some a =>
+    simp only []
+    split
+    · refine ⟨h.core, rfl, h.pos, fun _ => rfl, ?_, ?_, ?_, ?_⟩
+      · intro ht; cases ht
+      · intro ht; cases ht
+      · intro ht; cases ht
+      · intro ht; cases ht
+    · split <;> exact rel_fail _ h
+
+theorem plainStep1_pos (T : Tables) (s : S1) (p : PMode) (b : Byte) : (plainStep1 T s p b).pos = s.pos := by
+  unfold plainStep1
+  repeat' split
+  all_goals rfl
+
+theorem body1_pos (T : Tables) (cfg : Cfg) (s : S1) (b : Byte) : (body1 T cfg s b).pos = s.pos := by
+  unfold body1
+  split
+  · exact plainStep1_pos T s _ b
+  · unfold tokStep1
+    repeat' split
+    all_goals try simp only []
+    all_goals repeat' split
+    all_goals first | rfl | exact plainStep1_pos T _ _ b
+  · unfold strStep1; repeat' split
+    all_goals rfl
+  · unfold escStep1; repeat' split
+    all_goals rfl
+  · unfold runeStep1; repeat' split
+    all_goals rfl
+  · unfold chrStartStep1; repeat' split
+    all_goals rfl
+
+theorem rel_body1 (T : Tables) (hC : contOK T = true) (cfg : Cfg) {pre : List Obj} {off : Nat} {s s' : S1}
+    (b : Byte) (h : Rel pre off s s') : Rel pre off (body1 T cfg s b) (body1 T cfg s' b) := by
+  unfold body1
+  rw [h.mode]
+  cases hm : s'.mode with
+  | plain p => exact rel_plainStep1 T hC p b h (fun hp => h.sharp (by rw [hm, hp]))
+  | tok t => exact rel_tokStep1 T hC cfg t b h hm
+  | str m => exact rel_strStep1 T m b h hm
+  | esc => exact rel_escStep1 T b h hm
+  | rune => exact rel_runeStep1 T b h hm
+  | chrStart => exact rel_chrStartStep1 T b h
+
+theorem oneCheck_off (cfg : Cfg) (hc : cfg.one = false) (pos : Nat) (b : Byte) (c : Core) :
+    oneCheck cfg pos b c = c := by
+  unfold oneCheck
+  cases c.halt <;> simp [hc]
+
+theorem rel_step1 (T : Tables) (hC : contOK T = true) (cfg : Cfg) (hc : cfg.one = false)
+    {pre : List Obj} {off : Nat} {s s' : S1}
+    (b : Byte) (h : Rel pre off s s') : Rel pre off (step1 T cfg s b) (step1 T cfg s' b) := by
+  unfold step1
+  rw [h.core.halt]
+  cases hh : s'.core.halt with
+  | some x =>
+    simp only []
+    exact ⟨h.core, h.mode, by simp [h.pos]; omega, h.tok, h.sbuf, h.base, h.sharp, h.rune⟩
+  | none =>
+    simp only [oneCheck_off cfg hc]
+    have hb := rel_body1 T hC cfg b h
+    exact ⟨hb.core, hb.mode, by
+      have e1 : (body1 T cfg s b).pos = s.pos := body1_pos T cfg s b
+      have e2 : (body1 T cfg s' b).pos = s'.pos := body1_pos T cfg s' b
+      simp [h.pos]; omega, hb.tok, hb.sbuf, hb.base, hb.sharp, hb.rune⟩
+
+theorem rel_run1 (T : Tables) (hC : contOK T = true) (cfg : Cfg) (hc : cfg.one = false)
+    {pre : List Obj} {off : Nat} (bs : List Byte) {s s' : S1}
+    (h : Rel pre off s s') : Rel pre off (run1 T cfg s bs) (run1 T cfg s' bs) := by
+  induction bs generalizing s s' with
+  | nil => simpa [run1] using h
+  | cons b rest ih => simpa [run1] using ih (rel_step1 T hC cfg hc b h)
+
 end SlipVerif.Reader
